@@ -30,7 +30,7 @@ const BASES: [(&str, &str, &str); 6] = [
     ("2hop-out", "MATCH (x)-[e]->(y)-[f]->(z)", "x.p, z.p"),
     ("node-ids", "MATCH (x)", "x"),
 ];
-const PREDS: [(&str, &str); 12] = [
+const PREDS: [(&str, &str); 15] = [
     ("eq", "x.p = 1"),
     ("gt", "x.p > 1"),
     ("ne", "x.p <> 2"),
@@ -43,6 +43,9 @@ const PREDS: [(&str, &str); 12] = [
     ("in-list", "x.p IN [1, 2]"),
     ("prop-vs-prop", "x.p = x.p"),
     ("not-inside", "NOT (x.p = 2)"),
+    ("range", "x.p >= 1 AND x.p < 2"),
+    ("range-upper-first", "x.p < 2 AND x.p >= 1"),
+    ("range-upper-first-inclusive", "x.p <= 2 AND x.p > 1"),
 ];
 
 type Rows = Vec<Vec<Value>>;
@@ -283,7 +286,7 @@ fn run(args: vcore::Args) -> i32 {
     let kinds = if tier == vcore::Tier::Quick { GraphSpace::core_node_kinds().into_iter().take(5).collect() } else { GraphSpace::core_node_kinds() };
     let space = GraphSpace { max_nodes: 2, max_edges: tier.pick(2, 3), node_kinds: kinds, edge_kinds: GraphSpace::plain_edge_kinds() };
     let (graphs, _) = space.enumerate();
-    rep.rule = format!("every graph of {:?} x 6 base queries x 12 predicates x {{GQL, Cypher}}: partition / count / distinct / window (all s, n in {{0,1,2,len-1,len,len+1}}; unordered windows over Q and Q WHERE p also at len/2, 1023..1025, 2047..2049) / UNION ALL identities on the engine's own answers; plus the same identities on line graphs of 2047, 2048, 2049, 4097 nodes; distinct non-trivial = (graph, language, base query) with a non-empty answer", space.to_json());
+    rep.rule = format!("every graph of {:?} x 6 base queries x 15 predicates x {{GQL, Cypher}}: partition / count / distinct / window (all s, n in {{0,1,2,len-1,len,len+1}}; unordered windows over Q and Q WHERE p also at len/2, 1023..1025, 2047..2049) / UNION ALL identities on the engine's own answers; plus the same identities on line graphs of 2047, 2048, 2049, 4097 nodes; distinct non-trivial = (graph, language, base query) with a non-empty answer", space.to_json());
     let results = vcore::par_map(&graphs, vcore::cores(), |_, g| {
         let (db, _) = load(g);
         let gfeat = if g.edges.iter().any(|e| e.src == e.dst) { "self-loop" } else if g.nodes.iter().any(|n| !n.props.contains_key("p")) { "missing-property" } else { "plain" };
